@@ -93,7 +93,24 @@ def yield_points(sched, extra):
     wrap(AbsoluteModelRef.Context, "__enter__", "Context.__enter__")
     wrap(AbsoluteModelRef.Context, "__exit__", "Context.__exit__")
     wrap(AbsoluteModelRef, "to_typing_code", "AbsoluteModelRef.to_typing_code")
+    def wrap_property(owner, name, label):
+        prop = owner.__dict__.get(name)
+        if not isinstance(prop, property):
+            return
+
+        def getter(self_):
+            r = prop.fget(self_)
+            sched.yield_point(label)      # after the value was computed, before the caller uses it
+            return r
+        saved.append((owner, name, prop))
+        setattr(owner, name, property(getter))
+
     if extra:
+        from json_to_models.models.attr import AttrsModelCodeGenerator
+        from json_to_models.models.dataclasses import DataclassModelCodeGenerator
+        for owner in (GenericModelCodeGenerator, AttrsModelCodeGenerator, DataclassModelCodeGenerator):
+            wrap_property(owner, "convert_strings_kwargs", f"{owner.__name__}.convert_strings_kwargs (after)")
+        wrap_property(GenericModelCodeGenerator, "string_field_paths", "string_field_paths (after)")
         wrap(GenericModelCodeGenerator, "__init__", "Generator.__init__ (after)", after=True)
         wrap(GenericModelCodeGenerator, "generate", "Generator.generate")
         wrap(complex_mod, "get_hash_string", "DUnion dedup (get_hash_string)")
@@ -179,7 +196,7 @@ META = {
     "functions_encoded": ["AbsoluteModelRef.Context.__enter__/__exit__", "AbsoluteModelRef.to_typing_code", "GenericModelCodeGenerator.__init__/generate", "DUnion.__init__ (through get_hash_string)",
                           "MetadataGenerator.merge_field_sets", "generate_code"],
     "symbolic_on_path": ["first thread", "preempt-here bit at each yield point", "thread to switch to", "thread order after a thread ends"],
-    "bounds": {"quick": "1 worker (3 pipelines); 2 workers, <=2 preemptions, yield points at 7 kinds of call sites (~100 per worker)",
+    "bounds": {"quick": "1 worker (3 pipelines); 2 workers, <=2 preemptions, yield points at 9 kinds of call sites (~100 per worker)",
                "thorough": "3 pairs of pipelines, 3 workers, and all interleavings of the reference-context accesses for one pair"},
     "outside_claim": ["thread switches between yield points (inside other byte codes)", "more than 3 threads / more than 2 preemptions", "true parallelism without the GIL"],
     "assumptions": ["only one worker runs at a time (baton); switches happen at the wrapped call sites only",
